@@ -644,7 +644,7 @@ def run_inner(ctx):
                     jobs.append(("matrix:%s:%s:ipc:%d" % (pat, dm, i), [g3exe, "matrix", "ipc", pat, dm, str(i), str(nsh), seed, str(nr)]))
                 jobs.append(("matrix:%s:%s:local" % (pat, dm), [g3exe, "matrix", "local", pat, dm, "0", "1", seed, str(nr)]))
             hist("ipc", pat, 1, 5, 1)
-            hist("ipc", pat, 2, 5, 4)
+            hist("ipc", pat, 2, 4, 4)
             hist("ipc", pat, 3, 4, 4)
             hist("local", pat, 3, 5, 8)
         else:
@@ -674,7 +674,7 @@ def run_inner(ctx):
                 "creator with 1/1 (error priority), all payload/key type x type pairs (name, size, alignment 8/16, slice) also combined with a failing field, "
                 "attribute define x require x require_key sets, creation-time validity (safe_overflow x buffer x history; blackboard without entries), and "
                 "seeded random full settings; each with the library defaults and with all numeric defaults = 1. distinct = distinct (pattern, defaults, history)" %
-                ("length 5 with 1..2 nodes and length 4 with 3 nodes (ipc), length 5 with 3 nodes (local; the ipc run of that family alone took more than an hour in this sandbox)" if th else "quick tier: length 3-4 with 3 nodes (local), length 3 with 2 nodes (ipc), the matrix on local::Service and every 4th case on ipc::Service; the thorough tier runs length 5 (ipc: 1..2 nodes, local: 3 nodes), length 4 with 3 nodes on ipc, and the full matrix on both"),
+                ("length 5 with 1 node and length 4 with 2..3 nodes (ipc), length 5 with 3 nodes (local; the ipc runs of length 5 with 2 or 3 nodes took more than an hour in this sandbox)" if th else "quick tier: length 3-4 with 3 nodes (local), length 3 with 2 nodes (ipc), the matrix on local::Service and every 4th case on ipc::Service; the thorough tier runs length 5 (ipc: 1 node, local: 3 nodes), length 4 with 2..3 nodes on ipc, and the full matrix on both"),
         "exhaustive": False,
     })
     samples = []
